@@ -13,8 +13,8 @@ import (
 )
 
 var (
-	quick    = copyh.FBudget{Rand: 800, Shared: 550, Sched: 300, SchedShared: 400, Shared2: 250, SchedShared2: 300, Reps: 0}
-	thorough = copyh.FBudget{Rand: 3000, Shared: 2500, Sched: 1000, SchedShared: 1500, Shared2: 1200, SchedShared2: 1500, Reps: 1, Exh: 25, ExhReps: 4, Exh2: 6}
+	quick    = copyh.FBudget{Rand: 520, Shared: 340, Sched: 200, SchedShared: 260, Shared2: 200, SchedShared2: 230, Reps: 0}
+	thorough = copyh.FBudget{Rand: 2200, Shared: 1800, Sched: 800, SchedShared: 1100, Shared2: 900, SchedShared2: 1100, Reps: 1, Exh: 20, ExhReps: 4, Exh2: 5}
 )
 
 // main: the plain binary (no controlled schedules; bin/check builds the test binary).
